@@ -128,6 +128,24 @@ def main():
                     ok = got[1] == want[1]
                 if not ok:
                     mism.append(dict(where, kind='cursor-outcome', model=want, real=got))
+            if op == 'next' and got[0] in ('RuntimeError', 'stop') and mode == 'iter':
+                # in the specification INext is then a self-loop (the cursor is parked beyond everything, resp. the
+                # iteration is over): taking it again and again gives the same outcome and changes nothing
+                for _ in range(3):
+                    counts['cursor_steps'] += 1
+                    try:
+                        x = next(cursor)
+                        again = ['entry', repr(x)[:40]]
+                    except StopIteration:
+                        again = ['stop']
+                    except RuntimeError:
+                        again = ['RuntimeError']
+                    except Exception as e:
+                        again = ['exc', type(e).__name__]
+                    counts['outcomes']['again-' + again[0]] = counts['outcomes'].get('again-' + again[0], 0) + 1
+                    if (again != got) if (impl == 'c' and exact) else (again[0] not in ('entry', 'stop', 'RuntimeError', 'IndexError')):
+                        mism.append(dict(where, kind='sticky-outcome', model=got, real=again))
+                        break
             rp = P.proj(t, emb, is_set)
             if rp != setify(step['to']):
                 mism.append(dict(where, kind='structure', model=setify(step['to']), real=rp))
